@@ -124,7 +124,7 @@ Seed(k, td) ==
                                       Opt("y", Ref("Bt")), Def("e", Ref("En"), "b") >>)) >>),
                  Mod("Bm", OtherTd(td), <<>>, <<
                    Asg("Aux", TBool),
-                   Asg("Bt", TSeq(<< Mand("p", Ref("Aux")), Opt("q", TChoice(<< Alt("m", TNull), Alt("n", TIntR(0, 255)) >>)),
+                   Asg("Bt", TSeq(<< Mand("a", Ref("Aux")), Opt("q", TChoice(<< Alt("m", TNull), Alt("n", TIntR(0, 255)) >>)),
                                      Def("r", Ref("Aux"), FALSE) >>)),
                    Asg("Cu", TSeq(<< Mand("g", TBool), Opt("h", TChoice(<< Alt("m", TNull), Alt("n", TIntR(0, 255)) >>)) >>)),
                    Asg("En", Enum3) >>) >>]
@@ -134,18 +134,18 @@ Seed(k, td) ==
                  Mod("Bm", td, <<>>, <<
                    Asg("Ba", TSeqX("SEQ", << Mand("p", TOcts), Opt("q", TEnum(<<It("a", 0), It("b", 1)>>)) >>, TRUE,
                                    << Add1(Opt("x", TNull)) >>)) >>) >>]
-   [] k = 7 ->    \* COMPONENTS OF inside one module, source components with references; SET, SET OF
+   [] k = 7 ->    \* COMPONENTS OF inside one module, the source is also used directly; SET, SET OF
     [mods |-> << Mod("M", td, <<>>, <<
        Asg("Fl", TBool),
-       Asg("Ba", TSeq(<< Mand("p", Cx(TOcts, 0)), Def("q", Cx(Ref("Fl"), 1), FALSE) >>)),
-       Asg("Wr", TSeq(<< CompOf("Ba"), Mand("z", Cx(TIntR(0, 255), 2)) >>)),
+       Asg("Ba", TSeq(<< Mand("p", TOcts), Def("q", Ref("Fl"), FALSE) >>)),
+       Asg("Wr", TSeq(<< Mand("z", TIntR(0, 255)), CompOf("Ba") >>)),
        Asg("Top", TSet(<< Mand("s", Cx(Ref("Wr"), 0)), Opt("f", Cx(Ref("Fl"), 1)),
-                          Mand("g", Cx(TOf("SETOF", Ref("Fl"), NoSz), 2)) >>)) >>) >>]
+                          Mand("g", Cx(TOf("SETOF", Ref("Fl"), NoSz), 2)), Opt("h", Cx(Ref("Ba"), 3)) >>)) >>) >>]
    [] k = 8 ->    \* extension additions whose components are references
     [mods |-> << Mod("M", td, <<>>, <<
        Asg("Bo", TBool),
        Asg("Ex", TSeqX("SEQ", << Mand("a", TIntR(0, 255)) >>, TRUE,
-                       << Add1(Opt("b", Ref("Bo"))), Add1(Opt("c", TSeq(<< Mand("d", Ref("Bo")) >>))) >>)),
+                       << Add1(Opt("b", Ref("Bo"))), Add1(Opt("c", TSeq(<< Mand("b", Ref("Bo")) >>))) >>)),
        Asg("Top", TSeq(<< Mand("e", Ref("Ex")), Mand("f", Ref("Bo")) >>)) >>) >>]
 
 ------------------------------------------------------------------------------
